@@ -18,7 +18,7 @@ FUNCTIONS = ["backend_z3.z3_solver_sat", "BackendZ3._batch_eval", "BackendZ3._ex
             [f"ModelCacheMixin.{m} (exceptional postcondition)" for m in ("eval", "batch_eval", "min", "max", "solution", "satisfiable")] + \
             ["CompositeFrontend.check_satisfiability (a child's solver call gives up: representation invariant kept)", "CompositeFrontend._ensure_sat"]
 TRUSTED = _rtc.RTC_TRUSTED + ["ghost solver: push/pop/add/model as documented by Z3"]
-ASSUMPTIONS = ["the layers between _batch_eval/_extrema and ModelCacheMixin (FullFrontend and the other mixins) keep no state across a raised call: bounded part only",
+ASSUMPTIONS = ["the thin mixins above ModelCacheMixin are proved to stay consistent when the stack below gives up (layer.*[fault], 19 obligations); FullFrontend across a raised call: bounded part only",
                "value universe of 2 bits for _batch_eval (n <= 3), 3 bits for _extrema"]
 
 
@@ -32,4 +32,6 @@ def tasks(tier, seed=0):
     from vf.contracts import composite
     for m in composite.FAULT_METHODS:
         out.append(task("vf.contracts.composite", "ob_composite", f"composite.{m}/rep-after-a-child-gave-up", ["C17", "C12"], method=m, tier=tier))
+    from vf.contracts import layers
+    out += layers.fault_tasks(tier)
     return out + _rtc.rtc_tasks("C17", tier, seed)
